@@ -17,7 +17,7 @@ RULE = ('differential against an independent implementation (hashlib/hmac + pyth
         'peer values whose secret has a leading zero octet; (e) IkeSa.generate_ike_sa_key_material / generate_child_sa_key_material called '
         'for every PRF x INTEG x AES key length with random nonces of 16..256 octets, initial and rekey (old SK_d, old PRF); (f) end to end: '
         'in simulated histories (the two sides list the CHILD algorithms in opposite preference orders; plus exchanges that cross each other) every SKEYSEED-derived keyring and every key inside a NEWSA request equals what the reference derives '
-        'from the wire and the tapped DH private value (initial, piggy-backed CHILD, CREATE_CHILD with and without PFS, rekeyed IKE_SA). '
+        'from the wire and the tapped DH private value (initial, piggy-backed CHILD, CREATE_CHILD with and without PFS, rekeyed IKE_SA); (g) the same monitor over histories in which IKE_SA_INIT, IKE_SA rekeys and PFS CHILD_SA exchanges are first refused with INVALID_KE_PAYLOAD and retried with another group (MODP->MODP, MODP->ECP, ECP->MODP, ECP->ECP). '
         'distinct = (what, algorithm ids, length class).')
 ASSUMPTIONS = ['primality / security of the groups is out of reach: only equality with the published definitions is observed',
                'prf+ beyond 255 blocks is undefined by the RFC and not exercised',
@@ -235,7 +235,54 @@ def run(ck):
                 if n % 30 == 1:
                     ck.sample({'conf': kw, 'history': tags, 'derivations': [list(map(str, x)) for x in sh.events][:8]})
 
+    invalid_ke_retries(ck, base)
     crossing(ck)
+
+
+def invalid_ke_retries(ck, base):
+    # (g) the group of the first request is refused (INVALID_KE_PAYLOAD) and the exchange retried with another one: IKE_SA_INIT,
+    # IKE_SA rekeys and PFS CHILD_SA exchanges, every ordered pair of group kinds (MODP->MODP, MODP->ECP, ECP->MODP, ECP->ECP)
+    pairs = [('15', '14'), ('14', '15'), ('14', '19'), ('19', '14'), ('19', '20'), ('21', '19'), ('20', '21'), ('15', '20')]
+    if ck.thorough():
+        pairs += [(x, y) for x in histories.DH_ALL for y in histories.DH_ALL if x != y and (x, y) not in pairs]
+    for pi, (x, y) in enumerate(pairs):
+        for rep in range(2 if not ck.thorough() else 6):
+            n = 700000 + pi * 10 + rep
+            if not ck.mine(n):
+                continue
+            rng2 = ck.rng('ike-retry', n)
+            kw = dict(ike_a={'encr': ['aes256'], 'integ': ['sha256'], 'prf': [rng2.choice(histories.PRF)], 'dh': [x, y]}, ike_b={'encr': ['aes256'], 'integ': ['sha256'], 'prf': histories.PRF, 'dh': [y]},
+                      child_a={'encr': ['aes128'], 'integ': ['sha1'], 'dh': [x, y] if rep % 2 == 0 else []}, child_b={'encr': ['aes128'], 'integ': ['sha1'], 'dh': [y] if rep % 2 == 0 else []},
+                      auth='psk', mode='transport', dpd=600, lifetime=3600)
+            sim, a, b = S.make_pair(base + n, **kw)
+            sim.case = {'n': n, 'conf': kw}
+            km = shadow.KeyMonitor(ck, prefix='ke-retry:')
+            sh = km.attach(sim, S.W.dh_log)
+            sim.acquire(a, 0)
+            sim.drain()
+            for act in ('rekey_ike', 'rekey_child', 'new_child', 'rekey_ike', 'rekey_child'):
+                for ep in ((a, b) if rep < 2 else (b, a)):
+                    est = histories.established(ep)
+                    if not est:
+                        continue
+                    sa = est[0]
+                    if act == 'rekey_ike':
+                        sa.rekey_ike_sa_at = sim.clock.t - 1
+                        sa.delete_ike_sa_at = sim.clock.t + 29
+                        ep.step('tick')
+                    elif act == 'new_child':
+                        sim.acquire(ep, 0)
+                    elif sa.child_sas:
+                        c = sa.child_sas[-1]
+                        sim.expire(ep, bytes(c.inbound_spi), False, daddr=str(sa.my_addr), proto=50)
+                    sim.drain()
+            for ek, ex in sh.exch.items():
+                if ex.get('exch') == 36 and any(p['type'] == 41 and p.get('ntype') == 17 for p in ex.get('resp_inner') or []):
+                    is_ike = any(p['type'] == 33 and p['proposals'] and p['proposals'][0]['proto'] == 1 for p in ex['inner'])
+                    ck.count('ke_retry.refused.' + ('ike_rekey' if is_ike else 'child'))
+                    ck.seen('ke_retry.kinds', (x, y, is_ike))
+            ck.count('ke_retry.histories')
+            ck.nontrivial(('ke-retry', x, y, rep))
 
 
 def crossing(ck):
@@ -257,6 +304,8 @@ def verdict(ck):
     ck.floor('direct KEYMAT derivations', c['schedule.direct_keymat'], 200)
     ck.floor('end-to-end NEWSA key comparisons', c['keymon.newsa_seen'], 500)
     ck.floor('end-to-end keyrings (rekey)', c['keymon.keyring_checked.rekey'], 60)
+    ck.floor('IKE_SA rekeys refused with INVALID_KE_PAYLOAD and retried', c['ke_retry.refused.ike_rekey'], 8)
+    ck.floor('CHILD_SA exchanges refused with INVALID_KE_PAYLOAD and retried', c['ke_retry.refused.child'], 8)
     ck.floor('end-to-end suites', len(ck.sets['e2e.suites']), 60)
     ck.floor('DH secrets compared end to end', c['shadow.dh.secret_compared.initiator'] + c['shadow.dh.secret_compared.responder'], 300)
     return {'leading_zero_groups': sorted(ck.sets['dh.leading_zero_groups'])}
